@@ -1,6 +1,7 @@
 import OdakProofs.Lemmas.Losses
 import OdakProofs.Lemmas.GenLosses
 import OdakProofs.Lemmas.GenStateMachines2
+import OdakProofs.Lemmas.GenStatsMaps3
 
 /-! # C17 – losses vanish at identity, are non-negative, and do not depend on call history -/
 namespace Odak
@@ -710,4 +711,207 @@ example :
       = some [13, 13, 15] := by
   decide
 
+end Odak
+
+/-! # C17 with `calc_statsmaps` REGENERATED statement by statement (`Generated/StatsMaps.lean`, work package 15)
+
+`MetamericLoss.calc_statsmaps` and `MetamericLossUniform.calc_statsmaps` are no longer summarised: the pyramid-maker re-creation test, the
+lazily built list of one `RadiallyVaryingBlur` per pyramid level (each the regenerated blur step function of `Generated/StateMachines.lean`
+on its own state), the nested `find_stats`, both loops, the fovea / periphery masks are generated text, and the state of the object CONTAINS
+the states of its sub-objects.  The hypothesis `hcore` of the theorems above ("`calc_statsmaps` is history-free on its own sub-caches") is
+proved (`fullStatsCore_spec`, from `gen_metamericLossCalcStatsmapsFullG_rel`) and disappears. -/
+
+namespace Odak
+section GenStatsMaps
+open Odak.Gen
+variable {T G R Shape Sub : Type} [DecidableEq G] [DecidableEq R] [DecidableEq Shape]
+
+/-- **history independence of the regenerated `MetamericLoss.calc_statsmaps`, with its sub-caches**: start from ANY object whose
+    sub-objects are consistent (in particular a new one) and make ANY list of `calc_statsmaps` calls - image size, channel count, gaze,
+    alpha, width, distance, mode changing between calls, and also the configuration (`n_pyramid_levels`, `n_orientations`, `equi`,
+    `use_l2_foveal_loss`, `use_fullres_l0` re-assigned) and the device (`to(device)`).  Then
+    * call k returns what the cache-free reference `statsRef` gives for the arguments, configuration and device OF CALL k, the list raises
+      at the first call for which the reference raises, and not before;
+    * after the list every sub-cache invariant holds again: every stored blur object holds the level-of-detail map a NEW blur object
+      computes for the key it stores, the stored pyramid maker is one the method's own constructor call built;
+    * a NEW object returns the reference value (so "reference" = "what a new object returns", raising included) -/
+theorem C17_gen_calc_statsmaps_history_independent (E : GazeOps T G R Shape Sub) (S : StatsOps T R Shape)
+    (s : MetamericLossStatsSelf T G R Shape Sub) (hs : StatsInv E s) (calls : List (StatsCall T G R)) :
+    OptRel (fun r vs => StatsInv E r.1 ∧ r.2 = vs) (runSteps (statsStep E S) s calls) (calls.mapM (statsFresh E S)) ∧
+    ∀ c, (statsStep E S MetamericLossStatsSelf.init c).map Prod.snd = statsFresh E S c := by
+  refine ⟨runSteps_optRel (statsStep E S) (statsFresh E S) (StatsInv E) (fun s x h => gen_statsStep_rel E S s h x) calls s hs, fun c => ?_⟩
+  have h := gen_statsStep_rel E S MetamericLossStatsSelf.init (statsInv_init E) c
+  cases e1 : statsFresh E S c with
+  | none => rw [(OptRel.none_iff h).2 e1]; rfl
+  | some v =>
+    obtain ⟨r, e2, _, hr⟩ := OptRel.of_some h e1
+    rw [e2, ← hr]; rfl
+
+/-- **one `calc_statsmaps` call on an object with ANY consistent history**: it raises exactly when the cache-free reference raises;
+    otherwise it returns the reference's statistics, the pyramid maker it leaves is the one a new object builds for THIS image's channel
+    count, the configured orientations and the current device (`statsMaker`), with `use_l2_foveal_loss` the fovea mask it leaves is the
+    reference's (computed from the level-of-detail map of THIS call), and every sub-cache invariant holds again -/
+theorem C17_gen_calc_statsmaps_one_call (E : GazeOps T G R Shape Sub) (S : StatsOps T R Shape) (cfg : MetamericLossCfg R) (device : Nat)
+    (s : MetamericLossStatsSelf T G R Shape Sub) (hs : StatsInv E s) (image : T) (g : G) (a w d : R) (m : String) (equi : Bool) :
+    OptRel (fun r v => StatsInv E r.1 ∧ r.1.pyramid_maker = statsMaker E cfg.n_orientations device image ∧ r.2.1 = v.1 ∧
+        (cfg.use_l2_foveal_loss = true → r.1.fovea_mask = v.2.1))
+      (metamericLossCalcStatsmapsFullG E S cfg device s image g a w d m equi) (statsRef E S cfg device image g a w d m) := by
+  have h := gen_metamericLossCalcStatsmapsFullG_rel E S cfg device s hs image g a w d m equi
+  cases e1 : statsRef E S cfg device image g a w d m with
+  | none => rw [(OptRel.none_iff h).2 e1]; trivial
+  | some v =>
+    obtain ⟨r, e2, h1, h2, h3, h4⟩ := OptRel.of_some h e1
+    rw [e2]
+    refine ⟨h1, ?_, h3, h4⟩
+    rw [h2]
+    simp only [statsRef, Option.bind_eq_bind] at e1
+    cases hm : statsMaker E cfg.n_orientations device image with
+    | none => simp [hm] at e1
+    | some pm =>
+      simp only [hm, Option.bind_some] at e1
+      cases ht : statsRefTail E S cfg pm image g a w d m with
+      | none => simp [ht] at e1
+      | some t => simp [ht] at e1; rw [← e1]
+
+/-- the same for `MetamericLossUniform.calc_statsmaps` (its only sub-cache is the pyramid maker) -/
+theorem C17_gen_uniform_calc_statsmaps_history_independent (E : GazeOps T G R Shape Sub) (S : StatsOps T R Shape)
+    (s : MetamericLossUniformStatsSelf T G R Shape Sub) (hs : UStatsInv s) (calls : List (UStatsCall T R)) :
+    OptRel (fun r vs => UStatsInv r.1 ∧ r.2 = vs) (runSteps (uStatsStep E S) s calls) (calls.mapM (uStatsFresh E S)) ∧
+    ∀ c, (uStatsStep E S MetamericLossUniformStatsSelf.init c).map Prod.snd = uStatsFresh E S c := by
+  refine ⟨runSteps_optRel (uStatsStep E S) (uStatsFresh E S) UStatsInv (fun s x h => gen_uStatsStep_rel E S s h x) calls s hs, fun c => ?_⟩
+  have h := gen_uStatsStep_rel E S MetamericLossUniformStatsSelf.init (fun p hp => by cases hp) c
+  cases e1 : uStatsFresh E S c with
+  | none => rw [(OptRel.none_iff h).2 e1]; rfl
+  | some v =>
+    obtain ⟨r, e2, _, hr⟩ := OptRel.of_some h e1
+    rw [e2, ← hr]; rfl
+
+omit [DecidableEq G] [DecidableEq R] [DecidableEq Shape] in
+/-- **the re-creation test of the pyramid maker reads what the constructor call stored**: on a pyramid maker that the constructor call of
+    `calc_statsmaps` built for channel count `c`, `o` orientations and device `d`, the three accessors of the test - `.device`,
+    `len(.band_filters)`, `.filt_h0.size(0)`, resolved through `SpatialSteerablePyramid.__init__` and the regenerated table of
+    `get_steerable_pyramid_filters` - return `d`, `o`, `c`; hence the test fires iff there is no maker or one of the three differs from
+    the device / orientations / channel count of THIS call, and a maker that passes the test IS the maker a new object would build -/
+theorem C17_gen_pyramid_maker_test_reads_constructor_arguments (c o d : Nat) (p : SpatialSteerablePyramidSelf)
+    (hp : spatialSteerablePyramidInitG false c 5 o "cropped" d = some p) :
+    spatialSteerablePyramidDeviceG p = some d ∧ spatialSteerablePyramidBandFiltersLenG p = some o ∧
+      spatialSteerablePyramidFiltH0Size0G p = some c ∧
+      p = { use_bilinear_downup := false, n_channels := c, filter_size := 5, n_orientations := o, filter_type := "cropped", device := d } :=
+  ⟨(gen_pyramidMaker_accessors c o d p hp).2.1, (gen_pyramidMaker_accessors c o d p hp).2.2.1, (gen_pyramidMaker_accessors c o d p hp).2.2.2.1,
+    (gen_pyramidMaker_accessors c o d p hp).1⟩
+
+/-- **`C17_gen_metameric_loss_history_independent` WITHOUT `hcore`**: the regenerated `MetamericLoss.__call__` running on the regenerated
+    `calc_statsmaps` (`fullOps`: the sub-state is the record of sub-objects; a `calc_statsmaps` that raises is totalised - marked `"RAISE"`,
+    no statistics - and by `C17_gen_calc_statsmaps_history_independent` it raises for an object with a history exactly when it raises for a
+    new object).  For every configuration, every device and ANY call list whose inputs pass `check_loss_inputs`, call k returns the
+    documented value for ITS OWN image, target and gaze, `stats` / `mask` being what a NEW object's `calc_statsmaps` returns / leaves.
+    The only remaining hypothesis is about tensors: equality is shape + `torch.eq` -/
+theorem C17_gen_metameric_loss_history_independent_full [DecidableEq T] (E : GazeOps T G R Shape Sub) (S : StatsOps T R Shape) (device : Nat)
+    (cfg : MetamericLossCfg R) (hext : ∀ a b : T, a = b ↔ (E.shape a = E.shape b ∧ E.allEq b a = true))
+    (calls : List (MLArgs T G)) (hok : ∀ x ∈ calls, E.inputsOk x.image x.target = true) :
+    (∃ s', runSteps (mlStep (fullOps E S device) cfg) (MetamericLossSelf.init (MetamericLossStatsSelf.init, [])) calls =
+      some (s', calls.map (mlFresh (fullOps E S device) cfg
+        (statsNew E S cfg device cfg.alpha cfg.real_image_width cfg.real_viewing_distance cfg.mode)
+        (maskNew E S cfg device cfg.alpha cfg.real_image_width cfg.real_viewing_distance cfg.mode)))) ∧
+    ∀ x ∈ calls, (mlStep (fullOps E S device) cfg (MetamericLossSelf.init (MetamericLossStatsSelf.init, [])) x).map Prod.snd =
+      some (mlFresh (fullOps E S device) cfg
+        (statsNew E S cfg device cfg.alpha cfg.real_image_width cfg.real_viewing_distance cfg.mode)
+        (maskNew E S cfg device cfg.alpha cfg.real_image_width cfg.real_viewing_distance cfg.mode) x) :=
+  C17_gen_metameric_loss_history_independent (fullOps E S device) cfg _ _ (fun sub => StatsInv E sub.1)
+    (fun sub h x g => ⟨(fullStatsCore_spec E S device cfg sub h x g _ _ _ _).1, (fullStatsCore_spec E S device cfg sub h x g _ _ _ _).2.1⟩)
+    hext (MetamericLossStatsSelf.init, []) (statsInv_init E) calls hok
+
+/-- **every sub-cache invariant holds after ANY `__call__` list** on the full object: whatever the calls were (sizes, channel counts, gazes,
+    targets, colour spaces), afterwards every blur object of `self.blurs` holds the level-of-detail map a NEW blur object computes for the key
+    it stores, and the pyramid maker is one the method's own constructor call built -/
+theorem C17_gen_metameric_loss_sub_caches_consistent_full [DecidableEq T] (E : GazeOps T G R Shape Sub) (S : StatsOps T R Shape) (device : Nat)
+    (cfg : MetamericLossCfg R) (hext : ∀ a b : T, a = b ↔ (E.shape a = E.shape b ∧ E.allEq b a = true))
+    (calls : List (MLArgs T G)) (hok : ∀ x ∈ calls, E.inputsOk x.image x.target = true)
+    (s' : MetamericLossSelf T G R Shape (MetamericLossStatsSelf T G R Shape Sub × List String)) (vs : List T)
+    (hrun : runSteps (mlStep (fullOps E S device) cfg) (MetamericLossSelf.init (MetamericLossStatsSelf.init, [])) calls = some (s', vs)) :
+    StatsInv E s'.sub.1 := by
+  let EF := fullOps E S device
+  let stats := statsNew E S cfg device cfg.alpha cfg.real_image_width cfg.real_viewing_distance cfg.mode
+  let mask := maskNew E S cfg device cfg.alpha cfg.real_image_width cfg.real_viewing_distance cfg.mode
+  have hcore : ∀ sub : MetamericLossStatsSelf T G R Shape Sub × List String, StatsInv E sub.1 → ∀ x g,
+      StatsInv E (EF.statsCore cfg sub x g cfg.alpha cfg.real_image_width cfg.real_viewing_distance cfg.mode).1.1 ∧
+      (EF.statsCore cfg sub x g cfg.alpha cfg.real_image_width cfg.real_viewing_distance cfg.mode).2 = (stats x g, mask x g) :=
+    fun sub h x g => ⟨(fullStatsCore_spec E S device cfg sub h x g _ _ _ _).1, (fullStatsCore_spec E S device cfg sub h x g _ _ _ _).2.1⟩
+  have step : ∀ s x, (∃ c fm lm sub, s = mlToSelf c fm lm sub ∧ KeyedInv (fun k : G × T => stats k.2 k.1) c ∧ StatsInv E sub.1) →
+      EF.inputsOk x.image x.target = true →
+      ∃ s2, mlStep EF cfg s x = some (s2, mlFresh EF cfg stats mask x) ∧
+        ∃ c fm lm sub, s2 = mlToSelf c fm lm sub ∧ KeyedInv (fun k : G × T => stats k.2 k.1) c ∧ StatsInv E sub.1 := by
+    rintro s x ⟨c, fm, lm, sub, rfl, hc, hs⟩ hx
+    obtain ⟨fm', lm', sub', log, hs', e, _⟩ := gen_metamericLossCallG_eq EF cfg stats mask (fun sub => StatsInv E sub.1) hcore hext c fm lm sub hs x hx
+    obtain ⟨h1, h2⟩ := cacheStep_spec (fun k : G × T => stats k.2 k.1) c hc (mlKey EF cfg x)
+    refine ⟨_, ?_, _, fm', lm', sub', rfl, h1, hs'⟩
+    simp only [mlStep, e, Option.map_some, h2]; rfl
+  obtain ⟨s2, e, c, fm, lm, sub, rfl, _, hs2⟩ := runSteps_of_invariant (mlStep EF cfg) _ (fun x => EF.inputsOk x.image x.target = true)
+    (mlFresh EF cfg stats mask) step calls (MetamericLossSelf.init (MetamericLossStatsSelf.init, []))
+    ⟨none, none, none, (MetamericLossStatsSelf.init, []), rfl, keyedInv_none _, statsInv_init E⟩ hok
+  rw [e] at hrun
+  simp only [Option.some.injEq, Prod.mk.injEq] at hrun
+  rw [← hrun.1]
+  cases c <;> exact hs2
+
+/-- the refresh condition of `MetamericLoss.__call__` on the full object, without `hcore` -/
+theorem C17_gen_metameric_loss_refresh_iff_gaze_or_target_changed_full [DecidableEq T] (E : GazeOps T G R Shape Sub) (S : StatsOps T R Shape)
+    (device : Nat) (cfg : MetamericLossCfg R) (hext : ∀ a b : T, a = b ↔ (E.shape a = E.shape b ∧ E.allEq b a = true))
+    (c : Option ((G × T) × List T)) (fm lm : Option T) (sub : MetamericLossStatsSelf T G R Shape Sub × List String) (hsub : StatsInv E sub.1)
+    (x : MLArgs T G) (hok : E.inputsOk x.image x.target = true) :
+    ∃ r, metamericLossCallG (fullOps E S device) cfg (mlToSelf c fm lm sub) x.image x.target x.gaze x.image_colorspace x.visualise_loss = some r ∧
+      ("target_stats" ∈ r.2.2 ↔ (c = none ∨ ∃ k' v, c = some (k', v) ∧ k' ≠ mlKey (fullOps E S device) cfg x)) :=
+  C17_gen_metameric_loss_refresh_iff_gaze_or_target_changed (fullOps E S device) cfg _ _ (fun sub => StatsInv E sub.1)
+    (fun sub h x g => ⟨(fullStatsCore_spec E S device cfg sub h x g _ _ _ _).1, (fullStatsCore_spec E S device cfg sub h x g _ _ _ _).2.1⟩)
+    hext c fm lm sub hsub x hok
+
+/-- **`C17_gen_metamer_mse_history_independent` WITHOUT `hcore` and WITHOUT `hsynth`**: the regenerated `MetamerMSELoss.__call__` /
+    `gen_metamer` on an inner `MetamericLoss` whose `calc_statsmaps` is the regenerated method; the synthesis uses the pyramid maker that
+    call leaves, which is the one a new object builds for the image (`statsMaker`).  Remaining hypotheses: tensor equality is shape +
+    `torch.eq`, and `hdef` - the `calc_statsmaps` of a NEW object returns (does not raise) for the arguments `gen_metamer` passes (width 0.3,
+    distance 0.6, "quadratic") -/
+theorem C17_gen_metamer_mse_history_independent_full [DecidableEq T] (E : GazeOps T G R Shape Sub) (S : StatsOps T R Shape) (device : Nat)
+    (cfgI : MetamericLossCfg R)
+    (hdef : ∀ x g, (statsRef E S cfgI device x g cfgI.alpha (E.lit "0.3") (E.lit "0.6") "quadratic").isSome = true)
+    (hext : ∀ a b : T, a = b ↔ (E.shape a = E.shape b ∧ E.allEq b a = true))
+    (calls : List (LossArgs T G)) (hok : ∀ x ∈ calls, E.inputsOk x.image x.target = true) :
+    (∃ s', runSteps (mmStep (fullOps E S device) cfgI) (MetamerMSELossSelf.init (MetamericLossStatsSelf.init, [])) calls =
+      some (s', calls.map (mmFresh (fullOps E S device) cfgI.n_pyramid_levels
+        (statsNew E S cfgI device cfgI.alpha (E.lit "0.3") (E.lit "0.6") "quadratic")
+        (fun a b n x sz => S.synthWith cfgI (statsMaker E cfgI.n_orientations device x) a b n x sz)))) ∧
+    ∀ x ∈ calls, (mmStep (fullOps E S device) cfgI (MetamerMSELossSelf.init (MetamericLossStatsSelf.init, [])) x).map Prod.snd =
+      some (mmFresh (fullOps E S device) cfgI.n_pyramid_levels
+        (statsNew E S cfgI device cfgI.alpha (E.lit "0.3") (E.lit "0.6") "quadratic")
+        (fun a b n x sz => S.synthWith cfgI (statsMaker E cfgI.n_orientations device x) a b n x sz) x) := by
+  refine C17_gen_metamer_mse_history_independent (fullOps E S device) cfgI _ _ (fun sub => StatsInv E sub.1)
+    (fun sub h x g => ⟨(fullStatsCore_spec E S device cfgI sub h x g _ _ _ _).1, ?_⟩) (fun sub h x g a b n sz => ?_)
+    hext (MetamericLossStatsSelf.init, []) (statsInv_init E) calls hok
+  · exact congrArg Prod.fst (fullStatsCore_spec E S device cfgI sub h x g _ _ _ _).2.1
+  · obtain ⟨v, hv⟩ := Option.isSome_iff_exists.1 (hdef x g)
+    have hpm := (fullStatsCore_spec E S device cfgI sub h x g cfgI.alpha (E.lit "0.3") (E.lit "0.6") "quadratic").2.2 v hv
+    have hmk : statsMaker E cfgI.n_orientations device x = some v.2.2 := by
+      simp only [statsRef, Option.bind_eq_bind] at hv
+      cases hm : statsMaker E cfgI.n_orientations device x with
+      | none => simp [hm] at hv
+      | some pm =>
+        simp only [hm, Option.bind_some] at hv
+        cases ht : statsRefTail E S cfgI pm x g cfgI.alpha (E.lit "0.3") (E.lit "0.6") "quadratic" with
+        | none => simp [ht] at hv
+        | some r => simp [ht] at hv; rw [← hv]
+    show S.synthWith cfgI (fullStatsCore E S device cfgI sub x g cfgI.alpha (E.lit "0.3") (E.lit "0.6") "quadratic").1.1.pyramid_maker a b n x sz = _
+    rw [hpm, hmk]
+
+/-- **`C17_gen_metameric_loss_uniform_history_independent` WITHOUT `hcore`** (the sub-state is the pyramid maker) -/
+theorem C17_gen_metameric_loss_uniform_history_independent_full [DecidableEq T] (E : GazeOps T G R Shape Sub) (S : StatsOps T R Shape)
+    (device : Nat) (cfg : MetamericLossUniformCfg R) (hext : ∀ a b : T, a = b ↔ (E.shape a = E.shape b ∧ E.allEq b a = true))
+    (calls : List (MUArgs T)) (hok : ∀ x ∈ calls, E.inputsOk x.image x.target = true) :
+    (∃ s', runSteps (muStep (fullOpsU E S device) cfg) (MetamericLossUniformSelf.init (MetamericLossUniformStatsSelf.init, [])) calls =
+      some (s', calls.map (muFresh (fullOpsU E S device) cfg (uStatsNew E S cfg device cfg.pooling_size)))) ∧
+    ∀ x ∈ calls, (muStep (fullOpsU E S device) cfg (MetamericLossUniformSelf.init (MetamericLossUniformStatsSelf.init, [])) x).map Prod.snd =
+      some (muFresh (fullOpsU E S device) cfg (uStatsNew E S cfg device cfg.pooling_size) x) :=
+  C17_gen_metameric_loss_uniform_history_independent (fullOpsU E S device) cfg _ (fun sub => UStatsInv sub.1)
+    (fun sub h x => fullUniformStatsCore_spec E S device cfg sub h x cfg.pooling_size)
+    hext (MetamericLossUniformStatsSelf.init, []) (fun p hp => by cases hp) calls hok
+
+end GenStatsMaps
 end Odak
